@@ -333,7 +333,7 @@ class Builder:
         if profile.get("hypot", profile.get("undef")):
             kinds += ["hypot"]
         if profile.get("mod", profile.get("jump")):
-            kinds += ["mod"]
+            kinds += ["mod"] * int(profile.get("mod_weight", 1))
         if profile.get("heav", profile.get("jump")):
             kinds += ["heav"] * 2
         if profile.get("ufunc"):
